@@ -457,6 +457,7 @@ class Bin(Factory, Container):
                 value.fill(None, float(hi))
 
         else:
+            below = np.less(q, self.low)
             q = np.array(q, dtype=np.float64)
             np.subtract(q, self.low, q)
             np.multiply(q, self.num, q)
@@ -465,6 +466,8 @@ class Bin(Factory, Container):
             q = np.array(q, dtype=int)
             # the division can round up to num for values just below high (see Bin.bin)
             q[(q == self.num) & selection] = self.num - 1
+            # and it can underflow to -0.0 for values a few denormals below low (already in underflow)
+            q[below] = -1
 
             for index, value in enumerate(self.values):
                 np.not_equal(q, index, selection)
